@@ -213,7 +213,9 @@ class DictList(list):
                 _dict[the_id] = i
             else:
                 # undo the extend and raise an error
-                self = self[:current_length]
+                for added in islice(self, current_length, i):
+                    _dict.pop(added.id)
+                list.__delitem__(self, slice(current_length, None))
                 self._check(the_id)
                 # if the above succeeded, then the id must be present
                 # twice in the list being added
@@ -274,6 +276,11 @@ class DictList(list):
         other : iterable
             other must contain only unique id's present in the list
         """
+        other = list(other)
+        # validate first so that a failing removal leaves the list unchanged
+        indices = [self.index(item) for item in other]
+        if len(set(indices)) != len(indices):
+            raise ValueError("the items to remove must be unique")
         for item in other:
             self.remove(item)
         return self
@@ -387,6 +394,11 @@ class DictList(list):
     def insert(self, index: int, entity: Object) -> None:
         """Insert entity before index."""
         self._check(entity.id)
+        # list.insert accepts negative and out-of-range indices
+        if index < 0:
+            index = max(0, index + len(self))
+        else:
+            index = min(index, len(self))
         list.insert(self, index, entity)
         # all subsequent entries now have been shifted up by 1
         _dict = self._dict
@@ -478,19 +490,32 @@ class DictList(list):
         if isinstance(i, slice):
             # In this case, y needs to be a list. We will ensure all
             # the id's are unique
-            for obj in y:  # need to be setting to a list
-                self._check(obj.id)
-                # Insert a temporary placeholder so we catch the presence
-                # of a duplicate in the items being added
-                self._dict[obj.id] = None
-            list.__setitem__(self, i, y)
+            placeholders = []
+            try:
+                for obj in y:  # need to be setting to a list
+                    self._check(obj.id)
+                    # Insert a temporary placeholder so we catch the presence
+                    # of a duplicate in the items being added
+                    self._dict[obj.id] = None
+                    placeholders.append(obj.id)
+                list.__setitem__(self, i, y)
+            except Exception:
+                # leave the list as it was
+                for the_id in placeholders:
+                    self._dict.pop(the_id, None)
+                raise
             self._generate_index()
             return
-        # in case a rename has occurred
-        if self._dict.get(self[i].id) == i:
-            self._dict.pop(self[i].id)
+        old = self[i]
+        if i < 0:
+            i += len(self)
         the_id = y.id
-        self._check(the_id)
+        # in case a rename has occurred
+        replaces_old = self._dict.get(old.id) == i
+        if not (replaces_old and the_id == old.id):
+            self._check(the_id)
+        if replaces_old:
+            self._dict.pop(old.id)
         list.__setitem__(self, i, y)
         self._dict[the_id] = i
 
@@ -501,6 +526,8 @@ class DictList(list):
         if isinstance(removed, list):
             self._generate_index()
             return
+        if index < 0:
+            index += len(self) + 1
         _dict = self._dict
         _dict.pop(removed.id)
         for i, j in _dict.items():
